@@ -2,7 +2,10 @@
 
    The model (C14_Model.v) is the code after the repair F19 (a response object followed by
    other data is refused); the theorems are the full statement, for every set of hooks and
-   bindings, every request path and body, every hook outcome.
+   bindings, every request path and body, every hook outcome — the exit status and ALL the
+   files a hook hands back: the admission response, and the Kubernetes operations, metrics and
+   conversion response that shell-operator processes after the process has ended, each of
+   which can fail the run (C14_Spec.run_completed).
 
    Hypothesis names_ok: binding names are non-empty and contain no '/', which the
    configuration loader guarantees for kubernetesValidating (RFC 1123 subdomains) and every
@@ -16,9 +19,54 @@ Theorem C14_fail_closed : forall hooks path b r, names_ok hooks ->
   (exists uid, b = BReview uid)
   /\ (exists g, In g (registrars (model_regs hooks) path) /\ ran_is (snd (admit_request hooks path b r)) g = true)
   /\ exit_zero r = true
-  /\ exists m w p, file r = FResp true m w p false.
+  /\ (exists m w p, file r = FResp true m w p false)
+  /\ run_completed r = true.
 Proof. exact fail_closed_explicit. Qed.
 Print Assumptions C14_fail_closed.
+
+(* the invariant between handleRunHook and the event handler: a HookRun task that failed has
+   no "admissionResponse" prop (the response is saved after the last step that can fail) *)
+Theorem C14_failed_run_has_no_response : forall r,
+  t_fail (handle_run_hook r) = true -> t_prop (handle_run_hook r) = None.
+Proof. exact failed_run_has_no_response. Qed.
+Print Assumptions C14_failed_run_has_no_response.
+
+(* hook failure or any internal error yields a denial: a non-zero exit, or a failure in any
+   step after the exit (Kubernetes operations unparsable or rejected, metrics unparsable or
+   invalid, conversion response undecodable), is answered 403 "Hook failed" under the request's
+   UID, whatever the response file says *)
+Theorem C14_failed_run_denied : forall hooks path uid r,
+  exit_zero r = false \/ run_completed r = false ->
+  snd (admit_request hooks path (BReview uid) r) <> None ->
+  fst (admit_request hooks path (BReview uid) r) = AReview (mkReview uid false 403 AMHookFailed [] 0 false).
+Proof. exact failed_run_denied. Qed.
+Print Assumptions C14_failed_run_denied.
+
+Theorem C14_failed_run_not_allowed : forall hooks path b r,
+  exit_zero r = false \/ run_completed r = false ->
+  allowed_of (fst (admit_request hooks path b r)) = false.
+Proof. exact failed_run_not_allowed. Qed.
+Print Assumptions C14_failed_run_not_allowed.
+
+(* side effects of an exchange (marker operations): metrics are applied only by a run that went
+   through entirely; Kubernetes operations only after exit 0, by a hook that ran *)
+Theorem C14_effects_sound : forall hooks path b r,
+  (snd (admit_effects hooks path b r) = true ->
+     exit_zero r = true /\ run_completed r = true /\ (exists i, metrics r = MOps true i)
+     /\ snd (admit_request hooks path b r) <> None)
+  /\ (fst (admit_effects hooks path b r) = true ->
+     exit_zero r = true /\ (exists j, kpatch r = KOps true j) /\ snd (admit_request hooks path b r) <> None).
+Proof. exact effects_sound. Qed.
+Print Assumptions C14_effects_sound.
+
+(* Kubernetes operations are applied before the metrics are looked at: with accepted operations
+   and an invalid metric batch the operations stay applied, no metric is, and the answer is a denial *)
+Theorem C14_kube_operations_before_metrics : forall hooks path b r kk mk,
+  snd (admit_request hooks path b r) <> None -> hook_run r <> None ->
+  kpatch r = KOps kk false -> metrics r = MOps mk true ->
+  admit_effects hooks path b r = (kk, false) /\ allowed_of (fst (admit_request hooks path b r)) = false.
+Proof. exact kube_operations_before_metrics. Qed.
+Print Assumptions C14_kube_operations_before_metrics.
 
 Theorem C14_bad_body_refused : forall hooks path b r,
   bad_body_refused b (fst (admit_request hooks path b r)) = true.
@@ -80,12 +128,41 @@ Qed.
 Example C14_examples :
   registered_path [77; 117; 46; 99]%N = [47; 104; 111; 111; 107; 115; 47; 45; 109; 117; 45; 99]%N
   /\ admit_request ex_hooks [47; 104; 111; 111; 107; 115; 47; 45; 109; 117; 45; 99]%N (BReview 7)
-                   (mkRun true (FResp true 0 [1; 2] 5 false))%N
+                   (mkRun true (FResp true 0 [1; 2] 5 false) MEmpty CEmpty KEmpty)%N
      = (AReview (mkReview 7 true 0 AMNone [1; 2] 5 true), Some (1, (Mutating, [77; 117; 46; 99])))%N
   /\ allowed_of (fst (admit_request ex_hooks [47; 104; 111; 111; 107; 115; 47; 45; 109; 117; 45; 99]%N (BReview 7)
-                   (mkRun false (FResp true 0 [] 0 false))%N)) = false
+                   (mkRun false (FResp true 0 [] 0 false) MEmpty CEmpty KEmpty)%N)) = false
   /\ allowed_of (fst (admit_request ex_hooks [47; 104; 111; 111; 107; 115; 47; 110; 111; 112; 101]%N (BReview 7)
-                   (mkRun true (FResp true 0 [] 0 false))%N)) = false
+                   (mkRun true (FResp true 0 [] 0 false) MEmpty CEmpty KEmpty)%N)) = false
   /\ allowed_of (fst (admit_request ex_hooks [47; 104; 111; 111; 107; 115; 47; 45; 109; 117; 45; 99]%N (BReview 7)
-                   (mkRun true (FResp true 0 [] 0 true))%N)) = false.
+                   (mkRun true (FResp true 0 [] 0 true) MEmpty CEmpty KEmpty)%N)) = false.
+Proof. repeat split; vm_compute; reflexivity. Qed.
+
+(* the same allowing hook whose run fails after its exit: rejected Kubernetes operation (the
+   marker operation before it stays applied), invalid metrics after accepted operations,
+   unparsable operations, undecodable conversion response — each is the denial "Hook failed";
+   with accepted operations and valid metrics the allow is relayed and both are applied *)
+Local Open Scope N_scope.
+Definition ex_path : bytes := [47; 104; 111; 111; 107; 115; 47; 45; 109; 117; 45; 99]%N.
+Definition ex_failed : answer * ran :=
+  (AReview (mkReview 7 false 403 AMHookFailed [] 0 false), Some (1, (Mutating, [77; 117; 46; 99])))%N.
+
+Example C14_failed_run_hyp_met :
+  run_completed (mkRun true (FResp true 0 [] 0 false) MEmpty CEmpty (KOps true true)) = false
+  /\ snd (admit_request ex_hooks ex_path (BReview 7) (mkRun true (FResp true 0 [] 0 false) MEmpty CEmpty (KOps true true))) <> None
+  /\ hook_run (mkRun true (FResp true 0 [] 0 false) (MOps true true) CEmpty (KOps true false)) <> None.
+Proof. repeat split; vm_compute; discriminate. Qed.
+
+Example C14_post_exit_examples :
+  admit_request ex_hooks ex_path (BReview 7) (mkRun true (FResp true 0 [1] 5 false) MEmpty CEmpty (KOps true true)) = ex_failed
+  /\ admit_effects ex_hooks ex_path (BReview 7) (mkRun true (FResp true 0 [1] 5 false) MEmpty CEmpty (KOps true true)) = (true, false)
+  /\ admit_request ex_hooks ex_path (BReview 7) (mkRun true (FResp true 0 [] 0 false) (MOps true true) CEmpty (KOps true false)) = ex_failed
+  /\ admit_effects ex_hooks ex_path (BReview 7) (mkRun true (FResp true 0 [] 0 false) (MOps true true) CEmpty (KOps true false)) = (true, false)
+  /\ admit_request ex_hooks ex_path (BReview 7) (mkRun true (FResp true 0 [] 0 false) (MOps true false) CEmpty KUnparsable) = ex_failed
+  /\ admit_request ex_hooks ex_path (BReview 7) (mkRun true (FResp true 0 [] 0 false) MUnparsable CEmpty KEmpty) = ex_failed
+  /\ admit_request ex_hooks ex_path (BReview 7) (mkRun true (FResp true 0 [] 0 false) MEmpty CMalformed (KOps true false)) = ex_failed
+  /\ admit_effects ex_hooks ex_path (BReview 7) (mkRun true (FResp true 0 [] 0 false) MEmpty CMalformed (KOps true false)) = (false, false)
+  /\ admit_request ex_hooks ex_path (BReview 7) (mkRun true (FResp true 0 [1] 5 false) (MOps true false) COk (KOps true false))
+     = (AReview (mkReview 7 true 0 AMNone [1] 5 true), Some (1, (Mutating, [77; 117; 46; 99])))%N
+  /\ admit_effects ex_hooks ex_path (BReview 7) (mkRun true (FResp true 0 [1] 5 false) (MOps true false) COk (KOps true false)) = (true, true).
 Proof. repeat split; vm_compute; reflexivity. Qed.
